@@ -37,7 +37,7 @@ CLASSES = {
     "campaign21": v21.Campaign, "campaign20": v20.Campaign,
     "rel21": v21.Relationship, "rel20": v20.Relationship,
     "marking21": v21.MarkingDefinition, "marking20": v20.MarkingDefinition,
-    "sco21": v21.DomainName, "xreg21": XReg21, "xreg20": XReg20,
+    "sco21": v21.DomainName, "xreg21": XReg21, "xreg20": XReg20, "lang21": v21.LanguageContent,
 }
 
 
@@ -64,6 +64,9 @@ def to_dict(o):
         d["definition"] = {"statement": "s%d" % pay}
     elif cls == "sco21":
         d["value"] = "d%d.example" % pay
+    elif cls == "lang21":
+        d["object_ref"] = "identity--00000001-0000-4000-8000-000000000001"
+        d["contents"] = {"en": {"name": "l%d" % pay}}
     d["x_pay"] = pay
     for k, v in (o.get("props") or {}).items():
         d[k] = v
